@@ -175,6 +175,10 @@ func tuneForProperty(c *Config, prop string, r *core.Rand) {
 	}
 	// staggered activation: some features are left unscheduled in genesis and arrive by upgrade
 	// transactions during the run (verdict-bearing only where the statement mentions activation)
+	if prop == "C35" {
+		// node configuration: relays may still name the previous session on every third node
+		c.SessionSyncAllowance = []int{0, 0, 1}[r.Intn(3)]
+	}
 	if prop == "C16" && r.Chance(0.35) {
 		// the in-block duplicate cache is a feature too: left out of genesis, it arrives by an upgrade
 		// transaction during the run, and the block at its activation height gets a duplicate
